@@ -4,6 +4,7 @@ import (
 	"fmt"
 	"math/rand"
 	"runtime"
+	"strings"
 	"sync"
 	"sync/atomic"
 	"time"
@@ -175,6 +176,11 @@ func (h *harness) racingPairs(rng *rand.Rand, n int) {
 			mode = "gosched"
 		} else if i%5 == 3 {
 			mode = "free"
+		} else if i%5 == 2 {
+			// a third party holds the cluster lock, parked inside its own storage write (a store weight
+			// update: SaveStoreWeight under c.Lock): both heartbeats run through their unlocked
+			// validation against the same cache, queue on the lock and are released together
+			mode = "lock-holder"
 		}
 		wit := func(extra map[string]interface{}) map[string]interface{} {
 			m := map[string]interface{}{"mode": "racing-pairs:light", "variant": rc.Variant, "yield": mode, "case": i,
@@ -204,10 +210,11 @@ func (h *harness) racingPairs(rng *rand.Rand, n int) {
 		var wg sync.WaitGroup
 		wg.Add(2)
 		var mCall, mRet, nCall, nRet int64
+		var issued int32
 		go func() {
 			defer wg.Done()
 			gid := hist.Goid()
-			if mode != "free" {
+			if mode != "free" && mode != "lock-holder" {
 				hook.waiters.Store(gid, w)
 				defer hook.waiters.Delete(gid)
 			}
@@ -217,6 +224,7 @@ func (h *harness) racingPairs(rng *rand.Rand, n int) {
 				}
 			}()
 			<-start
+			atomic.AddInt32(&issued, 1)
 			mCall = hist.Tick()
 			mergeErr = t.Deliver(rc.Merge)
 			mRet = hist.Tick()
@@ -230,17 +238,45 @@ func (h *harness) racingPairs(rng *rand.Rand, n int) {
 				}
 			}()
 			<-start
+			atomic.AddInt32(&issued, 1)
 			nCall = hist.Tick()
 			for k, s := range rc.New {
 				newErrs[k] = t.Deliver(s)
 			}
 			nRet = hist.Tick()
 		}()
+		if mode == "lock-holder" {
+			parked := make(chan struct{})
+			var once int32
+			t.kv.Gate = func(kind, key string) {
+				if kind == "Save" && strings.HasPrefix(key, "schedule/store_weight") && atomic.CompareAndSwapInt32(&once, 0, 1) {
+					close(parked)
+					// bounded: let both heartbeat calls be issued, validate unlocked and queue on the lock
+					for k := 0; k < 2000 && atomic.LoadInt32(&issued) < 2; k++ {
+						runtime.Gosched()
+					}
+					time.Sleep(2 * time.Millisecond)
+				}
+			}
+			wg.Add(1)
+			go func() {
+				defer wg.Done()
+				t.rc.SetStoreWeight(1, 1, 1)
+			}()
+			select {
+			case <-parked:
+				r.Count("racing_lock_holder_parked_in_storage_write", 1)
+			case <-time.After(2 * time.Second):
+				r.Count("racing_lock_holder_not_parked", 1)
+			}
+		}
 		close(start)
 		wg.Wait()
+		t.kv.Gate = nil
 		after := t.Observe()
 		r.Eval(1)
 		r.Count("racing_pairs|"+rc.Variant, 1)
+		r.Count("racing_pairs_mode|"+mode, 1)
 		if mergePanic != nil || newPanic != nil {
 			r.Violation("panic-in-heartbeat", fmt.Sprintf("heartbeat processing panicked: %v %v", mergePanic, newPanic), wit(nil))
 			continue
